@@ -307,6 +307,23 @@ func bodyAnchors(src, nsrc []byte) [][6]int {
 	return [][6]int{{a.Byte, a.Line, a.Column, b.Byte, b.Line, b.Column}}
 }
 
+// lastTokenComplete: the last token of the buffer can end an item (identifier, literal, closing bracket or quote)
+func lastTokenComplete(src []byte) bool {
+	toks, _ := hclsyntax.LexConfig(src, "x.tf", hcl.InitialPos)
+	for i := len(toks) - 1; i >= 0; i-- {
+		switch toks[i].Type {
+		case hclsyntax.TokenEOF, hclsyntax.TokenNewline:
+			continue
+		case hclsyntax.TokenIdent, hclsyntax.TokenNumberLit, hclsyntax.TokenCQuote, hclsyntax.TokenCBrace, hclsyntax.TokenCBrack,
+			hclsyntax.TokenCParen, hclsyntax.TokenCHeredoc:
+			return toks[i].Range.End.Byte == len(src) // nothing (not even a blank) behind it
+		default:
+			return false
+		}
+	}
+	return false
+}
+
 func topLevelLines(src []byte) []int {
 	f, _ := hclsyntax.ParseConfig(src, "x.tf", hcl.InitialPos)
 	if f == nil {
@@ -411,8 +428,15 @@ func cmdShift(fs *flag.FlagSet) {
 					appendAt = nl
 					if !strings.HasSuffix(src, "\n") {
 						appendAt = nl + 1 // after the last line (which has no terminator yet)
+						if !lastTokenComplete(st.Src) {
+							// the appended text would begin by terminating an item that visibly expects a continuation
+							// (`x = a.`, `x = 1 +`): that is an edit of the item, not an edit elsewhere
+							appendAt = 0
+						}
 					}
-					keep = append(keep, appendAt)
+					if appendAt != 0 {
+						keep = append(keep, appendAt)
+					}
 				}
 				rng.Shuffle(len(lines), func(i, j int) { lines[i], lines[j] = lines[j], lines[i] })
 				for _, l := range lines {
@@ -464,6 +488,7 @@ func cmdShift(fs *flag.FlagSet) {
 					off = len(src)
 					ins = "\n" + strings.TrimSuffix(ins, "\n")
 				}
+				appended := off == len(src) && !strings.HasSuffix(string(src), "\n")
 				nsrc := append(append(append([]byte{}, src[:off]...), ins...), src[off:]...)
 				dl := strings.Count(j.ins, "\n")
 				db := len(j.ins)
@@ -513,6 +538,11 @@ func cmdShift(fs *flag.FlagSet) {
 					o2 := after.Run(wt, q2)
 					s1, r1 := observe(o1)
 					s2, r2 := observe(o2)
+					if appended && q.File == j.file && q.Pos.Byte == len(src) {
+						// the cursor sits at the insertion point itself (the old end of the buffer): whether a position at the
+						// very end of a file is "inside" it is a boundary convention - no answer and an error are the same there
+						s1, s2 = noAnswer(o1, s1), noAnswer(o2, s2)
+					}
 					a.n++
 					if s1 != s2 {
 						a.skelDiff++
@@ -568,6 +598,13 @@ func cmdShift(fs *flag.FlagSet) {
 		n += t
 	}
 	fmt.Printf("{\"queries\":%d,\"jobs\":%d,\"files\":%d}\n", n, len(jobs), shards)
+}
+
+func noAnswer(o Outcome, skel string) string {
+	if o.Status == "error" || (o.Status == "ok" && (o.Value == nil || strings.HasSuffix(skel, "|nil"))) {
+		return "no answer"
+	}
+	return skel
 }
 
 func firstDiff(a, b string) string {
